@@ -1350,6 +1350,8 @@ reply_parse(struct evdns_base *base, u8 *packet, int length)
 	 */
 	buf_size = MAX(length - j, EVDNS_NAME_MAX);
 	reply.data.raw = mm_malloc(buf_size);
+	if (!reply.data.raw)
+		goto err;
 
 	/* now we have the answer section which looks like
 	 * <label:name><u16:type><u16:class><u32:ttl><u16:len><data...>
